@@ -164,17 +164,17 @@ def run(ctx, env):
     if ctx.anchor("R15.3", "ParsedNetflow", pn):
         rem = [f for f in pn["variants"][0]["fields"] if f["name"] == "remaining"]
         owned = bool(rem) and rem[0]["ty"].startswith("std::vec::Vec<")
-        nb = prog.body("ParsedNetflow::new")
-        copies = False
-        if nb is not None:
-            ret = peel(an.local(nb, 0))
-            if ret[0] == "agg":
-                f = dict(zip(ret[4], ret[3]))
-                r = peel(f.get("remaining", ("opaque", "")))
-                copies = r[0] == "call" and r[2] is not None and r[2].npath in ("std::slice::<impl [T]>::to_vec",)
-        ctx.ob("R15.3", "ParsedNetflow::new", "remainder-copied-per-packet", not (owned and copies),
-               "ParsedNetflow.remaining : %s is filled by to_vec(<parser remainder>) once per packet of the buffer (quadratic in the number of chained packets)" % (rem[0]["ty"] if rem else "?"),
-               site=site(nb.span) if nb else "")
+        copies = []
+        for bb in prog.bodies.values():
+            if bb.derived:
+                continue
+            for (blk, i, st) in block_aggs(bb):
+                if st["rv"]["adt"] == "ParsedNetflow":
+                    f = dict(zip(st["rv"]["fields"], st["rv"]["ops"]))
+                    if "remaining" in f and is_copy_of_slice(an.op(bb, f["remaining"])) is not None:
+                        copies.append("%s (%s)" % (bb.path, site(st["span"])))
+        ctx.ob("R15.3", "ParsedNetflow", "remainder-copied-per-packet", not (owned and copies),
+               "ParsedNetflow.remaining : %s is filled by an owned copy of the parser remainder once per packet of the buffer (quadratic in the number of chained packets): %s" % (rem[0]["ty"] if rem else "?", copies[:2]))
     # R15.4
     ca = CacheAccess(prog, an)
     for w in ca.writes:
@@ -198,7 +198,7 @@ def run(ctx, env):
                     why = "dominated by %s which checks field_length of all fields" % e[2].path
                 else:
                     why = "dominated by %s, which does not require every field_length > 0 (a single non-zero field suffices)" % e[2].path
-        ctx.ob("R15.4", b.path, "zero-length-fields-rejected:%s.%s" % (w["adt"].rsplit("::", 1)[1], w["field"]), ok, why, site=b.line(w["block"]))
+        ctx.ob("R15.4", w["adt"], "zero-length-fields-rejected:%s" % w["field"], ok, why + " (write at %s)" % b.path, site=b.line(w["block"]))
 
 
 def short_ty(ty):
